@@ -483,7 +483,7 @@ func eq64(a, b []int64) bool {
 func digRes(o cfgx.Outcome, b []byte) string {
 	switch o.Class {
 	case 0:
-		return vh.ResOk(vh.ZList64([]int64{int64(len(b)), cfgx.SHash(b)}))
+		return vh.ResOk(vh.ZList64(cfgx.Dig(nil, b)))
 	case 1:
 		return vh.ResErr(o.Code)
 	}
@@ -916,7 +916,7 @@ func main() {
 			}
 			offs = append(offs, 255, 256, 257)
 			if L >= 65534 && !thorough {
-				offs = []int{0, 4 + rng.Intn(297), 255}
+				offs = []int{4 + rng.Intn(297), 255}
 			}
 			seen := map[int]bool{}
 			for _, o := range offs {
